@@ -190,6 +190,7 @@ Definition shape_of (op : bytes) (args : list val) : shape :=
   else if any_of op ["c15.sfparse"; "c15.sfowned"]%string then SRes (SItems (fmt_len args))
   else if op_is op "c15.prem" then SRes SText
   else if op_is op "c15.itemcount" then SInt
+  else if any_of op ["c15.errtext"; "c15.isoweek.dbg"; "c15.wdset.dbg"]%string then SText
   else SAny.
 
 (** * documented panics *)
